@@ -33,6 +33,15 @@ var BloomOps = []string{"Add:x", "Add:y", "AddHash", "AddOutPoint", "Matches:x",
 var (
 	itemX = append([]byte{0x02}, bytes.Repeat([]byte{0x5a}, 32)...) // 33 bytes: also a P2PK key push
 	itemY = []byte("y-item")
+	// itemL: 300 non-uniform bytes (longer than any key, hash or outpoint: a path that treats long
+	// items specially - hashing them outside the critical section, say - is taken by this item only)
+	itemL = func() []byte {
+		b := make([]byte, 300)
+		for i := range b {
+			b[i] = byte(i*131+i>>3) ^ 0x5c
+		}
+		return b
+	}()
 	hashH = chainhash.Hash{0x11, 0x22, 0x33}
 	outO  = wire.OutPoint{Hash: chainhash.Hash{0x44, 0x55}, Index: 7}
 	// the items of the second filter of a two-filter configuration (same lengths, other contents)
@@ -171,6 +180,12 @@ func (m *model) apply(op string) string {
 		if cur != nil {
 			cur.Insert(ref.OutPointBytes(outO.Hash, outO.Index))
 		}
+	case "Add:L":
+		if cur != nil {
+			cur.Insert(itemL)
+		}
+	case "Matches:L":
+		return fmt.Sprint(cur != nil && cur.Contains(itemL))
 	case "Matches:x":
 		return fmt.Sprint(cur != nil && cur.Contains(itemX))
 	case "Matches:y":
@@ -300,6 +315,10 @@ func RunBloom(cfg BloomConfig, choose func(step int, enabled []int, runningEnabl
 				case "AddOutPoint":
 					o := outO
 					f.AddOutPoint(&o)
+				case "Add:L":
+					f.Add(itemL)
+				case "Matches:L":
+					h.Result = fmt.Sprint(f.Matches(itemL))
 				case "Matches:x":
 					h.Result = fmt.Sprint(f.Matches(itemX))
 				case "Matches:y":
